@@ -165,6 +165,15 @@ CHECKS = {
             "EBNF texts over the regex token syntax.",
             "Trusted: TLC, projections. The textual assembling of labels is not modelled; spellings are a finite pool.",
             "DESIGN.md section 3 C20"),
+    "C07": ("TLA+ AST generator of the documented Python-regex subset (PyRegexGen: Render and Den in PyRegexSem) enumerated "
+            "by TLC; every rendered pattern is given to CPython's re (authoritative) and to PythonRegex, on all strings up "
+            "to length 3 over a 7-character printable alphabet; TracePyRegex compares the three answer sets",
+            "Exhaustive over the generated AST family (nested groups, quantifiers on groups/sets/escapes, m=0 and m=n "
+            "repetitions, metacharacters inside sets, negated sets, shortcuts) plus ill-formed mutations that Python rejects; "
+            "the deciding oracle is CPython, the TLA+ denotation is generator and cross-check (a disagreement between them "
+            "is reported as machinery failure, not as a violation).",
+            "Trusted: CPython re, TLC. The specification contributes the pattern space and a redundant oracle here.",
+            "DESIGN.md section 3 C07"),
 }
 
 NOT_YET = "check not built yet in this round (see DESIGN.md section 9, build order); no claim is made"
